@@ -335,6 +335,22 @@ CLAIMED.update(
     }
 )
 
+CLAIMED.update(
+    {
+        "C15": (
+            "who-may-write on the private representation of TestCase/Statement, must-pass path queries (statement-list write -> registry update and code-cache drop), cache-copy provenance rule, binding provenance rule, freshness of the size read by the crossover length guard",
+            "Decides the representation-invariant discipline behind 'every test case stays well-formed': _statements, _type_registry, _var_counter, _code_cache and the per-statement "
+            "read-set cache are written only inside testcase/testcase.py; every TestCase method that changes the statement list reaches the registry update and drops the code cache on "
+            "every path; a statement's cached read set is copied only to a statement built with the same node object (never across a renaming); statements built inside TestCase bind a "
+            "fresh next_var_name(), the binding of the statement they replace, or nothing, and clone carries the name counter over; crossover installs its offspring only under "
+            "`offspring.size() < chromosome_length` evaluated after the offspring's last change, and the insertion loops re-test the size before every insertion. "
+            "Def-before-use after arbitrary operator histories (cursor arithmetic of the recursive statement emitters) is not decided.",
+            "Trusts the CFG builder; receivers are matched by name (the private fields of unrelated classes written through `self` are ignored).",
+            "DESIGN.md §3 C15",
+        ),
+    }
+)
+
 NOT_APPLICABLE: dict[str, str] = {
     "C06": "Correctness of the post-dominator/CDG construction on every code object is functional correctness of a graph "
     "algorithm; no shape of the code implies it and no sound static argument in reach bounds 'all code objects'.",
